@@ -769,6 +769,29 @@ func (m *endpointManager) resolveWorkloadEndpoints() {
 		delete(m.activeWlEndpoints, id)
 	}
 
+	// promoteShadowedWorkload re-queues the preferred shadowed endpoint (if any) of an
+	// interface name that has just lost its active endpoint.  Shadowed entries that have a
+	// pending update are out of date; the pending update will be processed in its own right.
+	promoteShadowedWorkload := func(ifaceName string) {
+		var bestShadowedId types.WorkloadEndpointID
+		found := false
+		for sId, sWorkload := range m.shadowedWlEndpoints {
+			if _, pending := m.pendingWlEpUpdates[sId]; pending {
+				continue
+			}
+			if sWorkload.Name == ifaceName {
+				if !found || wlIdsAscending(&sId, &bestShadowedId) {
+					bestShadowedId = sId
+					found = true
+				}
+			}
+		}
+		if found {
+			m.pendingWlEpUpdates[bestShadowedId] = m.shadowedWlEndpoints[bestShadowedId]
+			delete(m.shadowedWlEndpoints, bestShadowedId)
+		}
+	}
+
 	// Repeat the following loop until the pending update map is empty.  Note that it's possible
 	// for an endpoint deletion to add a further update into the map (for a previously shadowed
 	// endpoint), so we cannot assume that a single iteration will always be enough.
@@ -778,6 +801,8 @@ func (m *endpointManager) resolveWorkloadEndpoints() {
 			logCxt := log.WithField("id", id)
 			oldWorkload := m.activeWlEndpoints[id]
 			if workload != nil {
+				// This update supersedes any shadowed copy of the endpoint.
+				delete(m.shadowedWlEndpoints, id)
 				// Check if there is already an active workload endpoint with the same
 				// interface name.
 				if existingId, ok := m.activeWlIfaceNameToID[workload.Name]; ok && existingId != id {
@@ -794,6 +819,14 @@ func (m *endpointManager) resolveWorkloadEndpoints() {
 						logCxt.Info("Existing endpoint takes preference")
 						m.shadowedWlEndpoints[id] = workload
 						delete(m.pendingWlEpUpdates, id)
+						if oldWorkload != nil {
+							// The endpoint was active on another interface, which it no
+							// longer uses: remove that state and let the best shadowed
+							// endpoint of that interface (if any) take over.
+							removeActiveWorkload(logCxt, oldWorkload, id)
+							promoteShadowedWorkload(oldWorkload.Name)
+							m.epIDsToUpdateStatus.Add(id)
+						}
 						continue
 					}
 					logCxt.Info("New endpoint takes preference; remove existing")
@@ -816,6 +849,8 @@ func (m *endpointManager) resolveWorkloadEndpoints() {
 					m.wlIfaceNamesToReconfigure.Discard(oldWorkload.Name)
 					m.linkAddrsMgr.RemoveLinkLocalAddress(oldWorkload.Name)
 					delete(m.activeWlIfaceNameToID, oldWorkload.Name)
+					// Another endpoint with the old interface name may now become active.
+					promoteShadowedWorkload(oldWorkload.Name)
 				}
 				adminUp := workload.State == "active"
 				m.updateWorkloadARPChains(id, workload)
@@ -863,20 +898,7 @@ func (m *endpointManager) resolveWorkloadEndpoints() {
 				if oldWorkload != nil {
 					// Check for another endpoint with the same interface name,
 					// that should now become active.
-					bestShadowedId := types.WorkloadEndpointID{}
-					for sId, sWorkload := range m.shadowedWlEndpoints {
-						logCxt.Infof("Old workload %v", oldWorkload)
-						logCxt.Infof("Shadowed workload %v", sWorkload)
-						if sWorkload.Name == oldWorkload.Name {
-							if bestShadowedId.EndpointId == "" || wlIdsAscending(&sId, &bestShadowedId) {
-								bestShadowedId = sId
-							}
-						}
-					}
-					if bestShadowedId.EndpointId != "" {
-						m.pendingWlEpUpdates[bestShadowedId] = m.shadowedWlEndpoints[bestShadowedId]
-						delete(m.shadowedWlEndpoints, bestShadowedId)
-					}
+					promoteShadowedWorkload(oldWorkload.Name)
 				}
 			}
 
